@@ -524,6 +524,33 @@ def check_C13(tier, seed, res, builtins, log):
         for d, inp in [(d1, inp1), (d2, inp2), (d3, inp3)] + extra:
             progs.append(d)
             cases[d['name']] = [{'prog': d['name'], 'id': 'all', 'ctor': 0, 'ncalls': len(inp) + 2, 'input': inp, 'script': [], 'clones': []}]
+    # (4) built-ins combined with other classes (`|`, `#`, complement), so that the generated tables contain ranges no built-in has
+    # on its own (e.g. a range across the ASCII / non-ASCII border, ranges up to char::MAX), in table-forcing positions
+    from lexast import class_of
+    combos = [('alt', ('bi', 'control'), ('bi', 'alphabetic')), ('diff', ('any',), ('bi', 'alphabetic')), ('diff', ('any',), ('bi', 'lowercase')),
+              ('alt', ('bi', 'numeric'), ('set', [('r', 0x70, 0x90), ('r', 0x7F0, 0x810), ('r', 0xFFF0, 0x10010)])),
+              ('diff', ('alt', ('bi', 'alphanumeric'), ('set', [('r', 0x20, 0xFF)])), ('bi', 'uppercase')),
+              ('diff', ('any',), ('alt', ('bi', 'XID_Continue'), ('bi', 'whitespace')))]
+    if tier != 'quick':
+        combos += [('diff', ('any',), ('bi', nm)) for nm in order if len(preds[nm]) > 9][:12]
+    for i, ce in enumerate(combos):
+        try:
+            ivs = class_of(ce, {}, preds)
+        except Exception:  # noqa
+            continue
+        pts = set([0x7E, 0x7F, 0x80, 0x81, 0x7FF, 0x800, 0xFFFF, 0x10000, 0x10FFFF, 0])
+        for s_, e_ in ivs:
+            pts.update([s_ - 1, s_, s_ + 1, (s_ + e_) // 2, e_ - 1, e_, e_ + 1])
+        pts = sorted(p_ for p_ in pts if is_scalar(p_))
+        if tier == 'quick' and len(pts) > 900:
+            pts = sorted(set(rng.sample(pts, 900) + [p_ for p_ in pts if p_ < 0x900]))
+        d5 = {'name': 'BiE%d' % i, 'items': [('errortype',), R('simple', ('cat', ce, ('chr', 33))), R('simple', ('any',))]}
+        d6 = {'name': 'BiF%d' % i, 'items': [('errortype',), R('simple', ('chr', 0x23), ('cat', ce, ('chr', 33))), R('simple', ('plus', ce)), R('simple', ('any',))]}
+        inp5 = [x for p_ in pts for x in (p_, 33)]
+        inp6 = [x for p_ in pts[:500] for x in (0x23, p_, 33)] + pts
+        for d, inp in ((d5, inp5), (d6, inp6)):
+            progs.append(d)
+            cases[d['name']] = [{'prog': d['name'], 'id': 'all', 'ctor': 0, 'ncalls': len(inp) + 2, 'input': inp, 'script': [], 'clones': []}]
     status, traces, dumps = __import__('check').build_and_run(progs, cases, timeout=900)
     n_chars = 0
     shapes = {'table': 0, 'guards': 0}
@@ -564,7 +591,7 @@ def check_C13(tier, seed, res, builtins, log):
                                'what': 'built-in class lexer differs from the Rust predicate at token %d (char %s): got %s expected %s' % (k, ch, pa[k] if k < len(pa) else None, pb[k] if k < len(pb) else None)})
     cov = {'evaluations': n_chars, 'distinct_nontrivial': len(progs), 'programs': len(progs), 'table_obligations_ok': table_ok,
            'lookup_shapes': shapes, 'tables_differing_from_predicates': sorted(bad_points),
-           'rule': 'per built-in: used alone, split by overlapping rules, and as right context; inputs = every range end point and its neighbours of table and predicate',
+           'rule': 'per built-in: used alone, split by overlapping rules, and as right context; built-ins combined with other classes by | and # (tables with ranges no built-in has alone); inputs = every range end point, its neighbours and a midpoint, plus the UTF-8 length borders',
            'samples': [{'builtin': sel[0], 'definition': corpus.lexer_text(progs[0]), 'input_prefix': cases[progs[0]['name']][0]['input'][:10]}]}
     return {'violations': violations, 'unresolved': unresolved, 'coverage': cov,
             'assumptions': ['the predicate ranges are enumerated from the installed toolchain (char::is_*, unicode-xid), not proved']}
